@@ -481,7 +481,7 @@ def run(ctx: Any) -> None:
     bits = all_bits()
     prefixes = ["", "/vgi", "/a/b"]
     n_kinds = None if thorough else (6 if ctx.deep else 2)
-    thirds = range(12) if thorough else [ctx.seed % 12]
+    thirds = [0, 1, 9, 2] if thorough else [ctx.seed % 12]  # (config-without-backend, zstd-disabled) in all four combinations
     n = 0
     for third in thirds:
         cfgs = [make_cfg(b, idx, ctx.seed, (third + idx) % 12 if not thorough else third) for idx, b in enumerate(bits)]
